@@ -165,9 +165,15 @@ func TestWorker(t *testing.T) {
 			_ = os.WriteFile(p, []byte(cur), 0o644)
 		}
 		t0 := time.Now()
+		if d := os.Getenv("VERIF_DUMP_IDX"); d != "" && d == strconv.Itoa(idx) {
+			// debugging aid: event log and sample of one run (it is executed twice)
+			dr := ExecRun(t, sc, sim.NewTapes(rs), tier, true)
+			b, _ := json.Marshal(map[string]any{"sample": dr.Sample, "log": dr.Log, "signature": dr.Signature})
+			_ = os.WriteFile(os.Getenv("VERIF_DUMP_FILE"), b, 0o644)
+		}
 		res := ExecRun(t, sc, sim.NewTapes(rs), tier, false)
 		if os.Getenv("VERIF_TIMING") != "" {
-			fmt.Fprintf(os.Stderr, "TIMING idx=%d scenario=%s wall_ms=%d steps=%d sim_s=%.1f\n", idx, sc.Name, time.Since(t0).Milliseconds(), res.Steps, float64(res.SimNanos)/1e9)
+			fmt.Fprintf(os.Stderr, "TIMING idx=%d scenario=%s wall_ms=%d steps=%d sim_s=%.1f sig=%s\n", idx, sc.Name, time.Since(t0).Milliseconds(), res.Steps, float64(res.SimNanos)/1e9, res.Signature)
 		}
 		out.Runs++
 		out.PerScenario[sc.Name]++
